@@ -180,6 +180,8 @@ func fingerprint(rel, name string) []string {
 					out = append(out, v.Name+"="+c.ExactString())
 				}
 			}
+			// every identifier use, in source order: which variable, field, argument is read where
+			out = append(out, "id:"+v.Name)
 		case *ast.CallExpr:
 			out = append(out, "call:"+exprName(v.Fun))
 		case *ast.ReturnStmt:
